@@ -564,7 +564,7 @@ def run(ctx):
             grid, pws = grid[:2], pws[:4] + [t for t in pws[8:] if t[0].startswith(("len64", "len128"))]
         for si, st in enumerate(grid):
             for label, p in pws:
-                if ctx.quick and si >= 2 and label[3:].split("_")[0].isdigit() and int(label[3:].split("_")[0]) in BOUNDARY_LENGTHS:
+                if ctx.quick and si >= 2 and label.startswith("len") and label[3:].split("_")[0].isdigit() and int(label[3:].split("_")[0]) in BOUNDARY_LENGTHS:
                     continue  # boundary sweep on the first two settings only in quick
                 if not HS.admissible(name, p, {}, st):
                     continue
